@@ -157,6 +157,9 @@ def strip(d, is_output):
     return d
 
 
+_PREVIOUS = []      # (object read back by the previous call of roundtrip in this process, its dictionary form at that time)
+
+
 def roundtrip(x):
     """None or (subcheck, detail)"""
     is_output = isinstance(x, ReconciliationOutput)
@@ -173,6 +176,14 @@ def roundtrip(x):
         if bad:
             return ("roundtrip", f"{cls.__name__}: {bad}")
         d2 = y.to_dict()
+        # operation history across cases: the object read back by the PREVIOUS round trip of this process (other trees, often
+        # other costs) must still serialise as it did then - objects read from different texts share nothing
+        if _PREVIOUS:
+            prev_obj, prev_dict = _PREVIOUS.pop()
+            if json.dumps(prev_obj.to_dict(), sort_keys=True, default=str) != prev_dict:
+                return ("earlier_result_changed", f"an object read back earlier in this process no longer serialises as it did before "
+                                                  f"{cls.__name__}.from_dict was called again: {prev_dict[:200]} -> "
+                                                  f"{json.dumps(prev_obj.to_dict(), sort_keys=True, default=str)[:200]}")
         if strip(d1, is_output) != strip(d2, is_output):
             return ("reserialise", f"{cls.__name__}: to_dict() of the copy differs: {json.dumps(strip(d1, is_output))[:300]} -> "
                     f"{json.dumps(strip(d2, is_output))[:300]}")
@@ -188,6 +199,8 @@ def roundtrip(x):
             return ("second_read", f"{cls.__name__}: the same text read again after the first copy was edited: {bad}")
         if strip(d1, is_output) != strip(z.to_dict(), is_output):
             return ("second_read", f"{cls.__name__}: the same text read again after the first copy was edited serialises differently")
+        # remembered as it is NOW (after this function's own edits of y) for the next call
+        _PREVIOUS.append((y, json.dumps(y.to_dict(), sort_keys=True, default=str)))
     except Exception as exc:
         return ("exception", f"{cls.__name__}: {type(exc).__name__}: {exc}\n{traceback.format_exc(limit=5)}")
     return None
